@@ -8,6 +8,8 @@
 //	bind6 m=<mac12hex> a=<ip32hex|->   => ok [b=<keyhex>:<valhex>]   AddBindingV6
 //	unbind m=<mac12hex>                => ok [b-=<keyhex>]           RemoveBinding
 //	range <ip8hex>/<len>               => ok [r=<keyhex>:<valhex>]   AddAllowedRange
+//	rangemask <ip8hex> <mask8hex>      => ok [r=…] | err …           AddAllowedRange with an arbitrary mask
+//	(bind/bind6/unbind accept MACs of 1..8 bytes: the manager must refuse all but 6)
 //	rawbind <keyhex> <valhex>          => ok | err size              arbitrary binding bytes
 //	rawcfg <valhex>                    => ok | err size
 //	rawrange <keyhex> <valhex>         => ok | err …
@@ -148,6 +150,17 @@ func (r *run) report(err error) string {
 	for _, n := range names {
 		after := kernelDump(kmap(n))
 		before := r.snap[n]
+		// deletions first: in an LPM trie a new key may replace the node of an old one
+		var gone []string
+		for k := range before {
+			if _, ok := after[k]; !ok {
+				gone = append(gone, k)
+			}
+		}
+		sort.Strings(gone)
+		for _, k := range gone {
+			r.c.Do("del " + n + " " + k)
+		}
 		keys := make([]string, 0, len(after))
 		for k := range after {
 			keys = append(keys, k)
@@ -163,15 +176,7 @@ func (r *run) report(err error) string {
 				}
 			}
 		}
-		var gone []string
-		for k := range before {
-			if _, ok := after[k]; !ok {
-				gone = append(gone, k)
-			}
-		}
-		sort.Strings(gone)
 		for _, k := range gone {
-			r.c.Do("del " + n + " " + k)
 			toks = append(toks, tags[n]+"-="+k)
 		}
 		r.snap[n] = after
@@ -264,7 +269,7 @@ func (r *run) Do(op string) string {
 	case "bind", "bind6", "unbind":
 		ms, ok := arg(t[1:], "m")
 		mac, err := hex.DecodeString(ms)
-		if !ok || err != nil || len(mac) != 6 {
+		if !ok || err != nil || len(mac) == 0 || len(mac) > 8 {
 			return "badop"
 		}
 		if t[0] == "unbind" {
@@ -300,6 +305,16 @@ func (r *run) Do(op string) string {
 			return "badop"
 		}
 		return r.report(r.mgr.AddAllowedRange(&net.IPNet{IP: net.IP(b), Mask: net.CIDRMask(l, 32)}))
+	case "rangemask": // an IPNet with an arbitrary (possibly non-contiguous) mask
+		if len(t) != 3 {
+			return "badop"
+		}
+		b, e1 := hex.DecodeString(t[1])
+		mk, e2 := hex.DecodeString(t[2])
+		if e1 != nil || e2 != nil || len(b) != 4 || len(mk) != 4 {
+			return "badop"
+		}
+		return r.report(r.mgr.AddAllowedRange(&net.IPNet{IP: net.IP(b), Mask: net.IPMask(mk)}))
 	case "rawbind":
 		if len(t) != 3 {
 			return "badop"
@@ -390,15 +405,33 @@ func nearMiss(r *rand.Rand, a string) string {
 }
 
 // mkFrame builds dst|src|[tags]|ethertype|payload, truncated to n bytes if n >= 0
+// vlan: 0 none, 1 = 802.1Q, 2 = 802.1ad + 802.1Q, 3 = legacy 0x9100 + 0x8100, 4 = 0x9200,
+// 5 = PPPoE session (ethertype 0x8864, PPP protocol 0x0021 / 0x0057 in front of the IP header)
 func mkFrame(srcMac string, vlan int, ethertype uint16, payload []byte, n int) string {
 	f, _ := hex.DecodeString("ffffffffffff" + srcMac)
-	for i := 0; i < vlan; i++ {
-		tpid := []byte{0x81, 0x00}
-		if vlan == 2 && i == 0 {
-			tpid = []byte{0x88, 0xa8}
+	switch vlan {
+	case 1:
+		f = append(f, 0x81, 0x00, 0x00, 100)
+	case 2:
+		f = append(f, 0x88, 0xa8, 0x00, 100, 0x81, 0x00, 0x00, 101)
+	case 3:
+		f = append(f, 0x91, 0x00, 0x00, 100, 0x81, 0x00, 0x00, 101)
+	case 4:
+		f = append(f, 0x92, 0x00, 0x00, 100)
+	case 5:
+		ppp := uint16(0xc021)
+		if ethertype == 0x0800 {
+			ppp = 0x0021
+		} else if ethertype == 0x86dd {
+			ppp = 0x0057
 		}
-		f = append(f, tpid...)
-		f = append(f, 0x00, byte(100+i))
+		l := len(payload) + 2
+		f = append(f, 0x88, 0x64, 0x11, 0x00, 0x00, 0x01, byte(l>>8), byte(l), byte(ppp>>8), byte(ppp))
+		f = append(f, payload...)
+		if n >= 0 && n < len(f) {
+			f = f[:n]
+		}
+		return hex.EncodeToString(f)
 	}
 	f = append(f, byte(ethertype>>8), byte(ethertype))
 	f = append(f, payload...)
@@ -437,8 +470,8 @@ type gstate struct {
 func genFrame(r *rand.Rand, g *gstate) string {
 	mac := hx.Pick(r, macs)
 	vlan := 0
-	if r.Intn(8) == 0 {
-		vlan = 1 + r.Intn(2)
+	if r.Intn(7) == 0 {
+		vlan = 1 + r.Intn(5)
 	}
 	n := -1
 	if r.Intn(6) == 0 {
@@ -502,17 +535,27 @@ func genSeq(r *rand.Rand) []string {
 			} else {
 				g.bound4[mac] = a
 			}
-			delete(g.bound6, mac) // AddBinding rewrites the whole record
 			seq = append(seq, "bind m="+mac+" a="+a)
 		case x < 80:
 			mac, a := hx.Pick(r, macs), hx.Pick(r, v6s)
 			g.bound6[mac] = a
 			seq = append(seq, "bind6 m="+mac+" a="+a)
-		case x < 85:
+		case x < 84:
 			mac := hx.Pick(r, macs)
 			delete(g.bound4, mac)
 			delete(g.bound6, mac)
 			seq = append(seq, "unbind m="+mac)
+		case x < 85: // what the manager must refuse: MACs that are not 6 bytes, masks that are not prefixes
+			switch r.Intn(4) {
+			case 0:
+				seq = append(seq, "unbind m="+hx.Pick(r, []string{"02", "0200000000", "02000000000102", "0200000000010203"}))
+			case 1:
+				seq = append(seq, "bind m="+hx.Pick(r, []string{"0200", "02000000000102"})+" a=0a000005")
+			case 2:
+				seq = append(seq, "bind6 m=020000 a="+v6s[0])
+			default:
+				seq = append(seq, "rangemask "+hx.Pick(r, v4s)+" "+hx.Pick(r, []string{"ff00ff00", "ffffff00", "00ffffff", "ffff0001", "00000000", "fffffffe", "80000001"}))
+			}
 		case x < 93:
 			seq = append(seq, "range "+hx.Pick(r, nets))
 		case x < 96: // arbitrary binding bytes: every valid-flag / mode combination, modes beyond 3
@@ -563,9 +606,16 @@ func genExhaustive(emit func([]string)) {
 							if b4 == 1 {
 								a = "0a000005"
 							}
-							seq = append(seq, "bind m="+mac+" a="+a)
-							if b6 == 1 {
-								seq = append(seq, "bind6 m="+mac+" a="+v6s[0])
+							if rg == 1 { // dual stack in the other order: IPv6 first, then the IPv4 lease
+								if b6 == 1 {
+									seq = append(seq, "bind6 m="+mac+" a="+v6s[0])
+								}
+								seq = append(seq, "bind m="+mac+" a="+a)
+							} else {
+								seq = append(seq, "bind m="+mac+" a="+a)
+								if b6 == 1 {
+									seq = append(seq, "bind6 m="+mac+" a="+v6s[0])
+								}
 							}
 							seq = append(seq, fmt.Sprintf("setmode %d", def))
 						}
@@ -583,6 +633,10 @@ func genExhaustive(emit func([]string)) {
 						}
 						seq = append(seq, "frame "+mkFrame(mac, 1, 0x0800, ip4hdr("0a000006", "08080808"), -1))
 						seq = append(seq, "frame "+mkFrame(mac, 2, 0x86dd, ip6hdr(v6s[1], v6s[2]), -1))
+						seq = append(seq, "frame "+mkFrame(mac, 3, 0x0800, ip4hdr("0a000006", "08080808"), -1))
+						seq = append(seq, "frame "+mkFrame(mac, 5, 0x0800, ip4hdr("0a000006", "08080808"), -1))
+						seq = append(seq, "frame "+mkFrame(mac, 5, 0x86dd, ip6hdr(v6s[1], v6s[2]), -1))
+						seq = append(seq, "frame "+mkFrame(mac, 1, 0x0800, ip4hdr("0a000005", "08080808"), -1))
 						seq = append(seq, "frame "+mkFrame(mac, 0, 0x0806, ip4hdr("0a000006", "08080808"), -1))
 						seq = append(seq, "frame "+mkFrame(mac, 0, 0x0800, ip4hdr("0a000006", "08080808"), 33))
 						seq = append(seq, "frame "+mkFrame(mac, 0, 0x86dd, ip6hdr(v6s[1], v6s[2]), 53))
